@@ -1101,7 +1101,8 @@ def gather(args):
 
             if noident_mh:
                 remaining_mh = remaining_query.minhash.to_mutable()
-                remaining_mh += noident_mh
+                # gather may have moved to a coarser scaled than the query's
+                remaining_mh += noident_mh.downsample(scaled=remaining_mh.scaled)
                 remaining_query.minhash = remaining_mh
 
             if is_abundance:
